@@ -111,6 +111,10 @@ func enumsOf(v *model.Variant) []*enumType {
 	if r, ok := enumCache[v.Name]; ok {
 		return r
 	}
+	if err := v.InitError(); err != nil && strings.Contains(err.Error(), "no Go enum type found") {
+		// see TestC17_Types: not a harness problem but the subject of this property
+		panic(fmt.Sprintf("C17 violated (variant %s): the generated enumerated types do not match the YANG source: %v", v.Name, err))
+	}
 	v.MustInit()
 	byName := map[string]reflect.Type{}
 	for _, ts := range v.EnumTypes {
@@ -695,6 +699,16 @@ func TestC17_Types(t *testing.T) {
 	for vi, v := range variants.All {
 		if vi%shards != shard {
 			continue
+		}
+		// the harness resolves every enumerated leaf of the YANG corpus to a generated Go type whose member
+		// names are exactly the YANG members (enumeration) or the identities derived from the base, at any
+		// depth (identityref): when that fails for an enumerated type, the generated name set differs from
+		// the schema's, which is what this property is about
+		if err := v.InitError(); err != nil {
+			if strings.Contains(err.Error(), "no Go enum type found") {
+				t.Fatalf("C17 violated (variant %s): the generated enumerated types do not match the YANG source: %v", v.Name, err)
+			}
+			t.Fatalf("HARNESS-BUG: variant %s: %v", v.Name, err)
 		}
 		for _, e := range enumsOf(v) {
 			ntypes++
